@@ -120,10 +120,20 @@ var specC04 = &worldSpec{
 	Profile: &Profile{MinSteps: 15, MaxSteps: 50, W: weights(pruneWeights),
 		Backends: []string{"trace", "trace", "mem", "prefix"}},
 	Obs:  Observers{Reads: true, Hash: true, Proofs: true, Fresh: true},
-	Rule: "history of 15-50 steps biased to commits without writes, empty and 1-leaf versions, rollbacks, cold-cache reopens and flush thresholds 150/300/1000/100000; DeleteVersionsTo(n) for n in [first-1, base-1] plus refusal probes n in {latest, latest+1} (error + byte-identical store); after every step all retained versions are re-checked (contents, hash, proofs against reference roots) through the live handle and after each prune/rollback through a fresh handle; deleted versions must be unavailable. non-trivial = a prune that deleted >=1 version adjacent to a no-op/empty/1-leaf version or whose writes were split over >=2 physical batch writes",
+	Rule: "history of 15-50 steps biased to commits without writes, empty and 1-leaf versions, rollbacks, cold-cache reopens and flush thresholds 150/300/1000/100000; DeleteVersionsTo(n) for n in [first-1, base-1] plus refusal probes n in {latest, latest+1} (error + byte-identical store); after every step all retained versions are re-checked (contents, hash, proofs against reference roots) through the live handle and after each prune/rollback through a fresh handle, and after every commit / prune / rollback also through a new handle that reads the retained versions WITHOUT loading anything first; deleted versions must be unavailable. non-trivial = a prune that deleted >=1 version adjacent to a no-op/empty/1-leaf version or whose writes were split over >=2 physical batch writes",
 	Nontrivial: func(w *World) bool { return w.Labels["prune_special"] || w.Labels["prune_split"] },
 	Known:      knownCommon,
-	After:      trackMaxKeys,
+	After: func(w *World, op Op) *Violation {
+		if v := trackMaxKeys(w, op); v != nil {
+			return v
+		}
+		switch op.Kind {
+		case "prune", "lvfo", "dvf", "save", "replay":
+			// "after the process is restarted": a new handle whose first calls are reads of retained versions, not Load
+			return w.checkUnloadedHandle()
+		}
+		return nil
+	},
 }
 
 func TestC04(t *testing.T) { runWorldSpec(t, withLevel(specC04)) }
